@@ -6,5 +6,5 @@ wt=$(mktemp -d /tmp/demo_wt.XXXXXX)
 git -C /repo worktree add --detach "$wt" "$rev" >/dev/null 2>&1
 cp "$demo" "$wt/$crate/tests/$(basename "$demo")"
 name=$(basename "$demo" .rs)
-(cd "$wt" && CARGO_TARGET_DIR=/tmp/demo_target cargo test --offline -p "$(basename "$crate")" --test "$name" "$@" 2>&1 | tail -15) || true
+(cd "$wt" && CARGO_TARGET_DIR=/tmp/demo_target cargo test --offline -p "$(basename "$crate")" --test "$name" "$@" 2>&1 | tail -40) || true
 git -C /repo worktree remove --force "$wt"
